@@ -69,10 +69,10 @@ class Result(object):
 
 
 def run(module, cfg, name=None, overrides=None, workers=16, on_gen=None, on_line=None, simulate=None, depth=None,
-        seed=None, timeout=3600, coverage=False, env=None, heap=None, keep=False, dfid=None, postprocess_dir=None):
+        seed=None, timeout=1500, coverage=False, env=None, heap=None, keep=False, dfid=None, postprocess_dir=None):
     """Run TLC on spec/<module>.tla with spec/<cfg>.  on_gen(record) is called for every GEN line."""
     d = prepare(name or module, cfg, overrides)
-    cmd = ["java", "-XX:+UseParallelGC"]
+    cmd = ["java", "-XX:+UseParallelGC", "-Xss256m"]       # deep recursive operators (long shapes) need stack
     if heap:
         cmd.append("-Xmx%s" % heap)
     cmd += ["-cp", TLA_CP, "tlc2.TLC", "-workers", str(workers), "-metadir", os.path.join(d, "meta"),
@@ -116,6 +116,9 @@ def run(module, cfg, name=None, overrides=None, workers=16, on_gen=None, on_line
                 continue
             if on_line and on_line(line):
                 continue
+            if "StackOverflowError" in line or "OutOfMemoryError" in line:
+                p.kill()
+                raise TlcFailure("TLC died (%s) on %s/%s" % (line.strip()[:80], module, cfg))
             tail.append(line.rstrip("\n"))
             if len(tail) > 60:
                 tail.pop(0)
